@@ -602,6 +602,10 @@ def histories(draw):
             # more approved deltas than the default churn cap / any plausible per-call chunk (churn cap raised for that turn)
             "many": draw(st.sampled_from([0] * 11 + [130, 260])),
         }
+        if t["kill"]:
+            # where the configuration hangs on the ctx of a kill-switch turn: both names (scripts/chat.py), ctx.cfg only (TurnCtx,
+            # run_smoke_turn, console.py), or ctx.config as a plain dict next to ctx.cfg -- the switch is the orchestrator's to read
+            t["ctx_shape"] = draw(st.sampled_from(["both", "cfg-only", "cfg-only", "config-plain-dict"]))
         if vary:
             t["every"] = draw(st.sampled_from([1, 2, 3, 1000]))
             t["bust"] = draw(st.sampled_from(["none", "on-apply"]))
@@ -614,6 +618,14 @@ def histories(draw):
             "cm_mode": draw(st.sampled_from(["orch", "own"])),
             "wrange": draw(_WRANGE),
             "orch": draw(st.sampled_from(["per-turn", "shared"]))}                # one Orchestrator object for the whole history?              # own: the embedding application attaches its manager
+
+
+def _plain_cfg(o):
+    if isinstance(o, dict):
+        return {k: _plain_cfg(v) for k, v in o.items()}
+    if isinstance(o, list):
+        return [_plain_cfg(v) for v in o]
+    return o
 
 
 def _many(n):
@@ -718,7 +730,22 @@ def check_history(h, rec=None):
                 logs0 = observe.line_counts(eng.logs())
                 snaps0 = _dir_view(snapdir)
                 sd0 = world.store_digest(eng.state["store"])
-                r = eng.turn(t["agent"], t["text"], cfg, tid, world.NOW_MS + i * 1000)
+                shape = t.get("ctx_shape", "both") if t["kill"] else "both"  # committed turns: apply reads ctx.config only (see ASSUMPTIONS)
+                orig_make_ctx = world.make_ctx
+                if shape != "both":
+                    def _shaped(*a, _o=orig_make_ctx, _shape=shape, **kw):
+                        c = _o(*a, **kw)
+                        if _shape == "cfg-only":
+                            del c.config
+                        else:
+                            c.config = _plain_cfg(c.cfg)
+                        return c
+                    world.make_ctx = _shaped  # observe.Engine builds the ctx through this name
+                    labels.add(f"kill-ctx={shape}")
+                try:
+                    r = eng.turn(t["agent"], t["text"], cfg, tid, world.NOW_MS + i * 1000)
+                finally:
+                    world.make_ctx = orig_make_ctx
                 if r["exc"] is not None:
                     raise Violation(f"turn {i} raised {r['exc']}", h, "turn-raises")
                 logs1 = observe.line_counts(eng.logs())
